@@ -247,6 +247,8 @@ class Program:
             self._index_defs(m)
         self.wrapper_decorators = {}
         self._apply_wrappers()
+        from .loops import loops_to_recursion
+        self.unlooped = loops_to_recursion(self)
         from .dispatch import desugar_dispatch
         self.desugared = desugar_dispatch(self)
         from .inline import inline_new_helpers
